@@ -13,7 +13,7 @@ from vlib.cosched import kit as K
 from vlib.cosched.sched import Abort
 
 ASYNCIO_POPULATIONS = ["none", "sleeper", "sleeper+sync", "spinner+sync", "sleeper+spinner",
-                       "child-of-trio", "late"]
+                       "child-of-trio", "late", "stubborn"]
 TRIO_POPULATIONS = ["none", "sleeper", "sleeper+sync", "shield0.5", "shield5", "spinner+sync",
                     "sleeper+spinner", "child-of-asyncio", "late"]
 TRIGGERS = ["fail:asyncio", "fail:trio", "fail:threading", "sigint", "shutdown", "stop"]
@@ -35,6 +35,9 @@ def population(flavour, kind):
     if kind == "sleeper+spinner":
         return [mk("sleeper", [("forever", 0.7)], ("sync", 1)),
                 mk("spinner", [("sleep", 0.85), ("spin", None)])], []
+    if kind == "stubborn":
+        # finishes its current item before it gives in: needs a second cancellation
+        return [mk("stubborn", [("stubborn", 1, 0.3)], ("sync", 1))], []
     if kind.startswith("shield"):
         return [mk("shielded", [("forever", 0.7)], ("shield", float(kind[6:])))], []
     if kind.startswith("child-of-"):
@@ -224,8 +227,9 @@ def run(ctx):
             "late / child / shielded populations"),
                 "sigint": "one delivery per execution; arrival point is a cost-%d choice"
                           % (1 if ctx.quick else 0)},
-        assumptions=["asyncio cleanup is synchronous only; payloads that swallow cancellation "
-                     "are not in the population (DESIGN.md C02 domain)"],
+        assumptions=["asyncio cleanup is synchronous only; an asyncio payload may absorb its "
+                     "first cancellation (the runner re-cancels every 0.1 s), payloads that "
+                     "swallow every cancellation are not in the population"],
     )
 
 
